@@ -293,9 +293,25 @@ fn main() {
         // written by the checker from the data files; one identifier per line)
         if let Ok(path) = std::env::var("C20_DIR_IDS") {
             if let Ok(txt) = std::fs::read_to_string(&path) {
+                let mut by_lang: std::collections::BTreeMap<String, Vec<LanguageIdentifier>> = Default::default();
                 for l in txt.lines() {
                     if let Ok(li) = l.parse::<LanguageIdentifier>() {
                         println!("D {} {}", li, dir_name(li.character_direction()));
+                        by_lang.entry(li.language.as_str().to_string()).or_default().push(li);
+                    }
+                }
+                // two-call histories on one thread: for every ordered pair (x, y) of listed
+                // identifiers of one language, the direction of y asked right after that of x
+                // (a memo keyed on less than the whole identifier answers y with x's verdict)
+                for (_, group) in &by_lang {
+                    if group.len() < 2 || group.len() > 40 {
+                        continue;
+                    }
+                    for x in group {
+                        for y in group {
+                            let _ = x.character_direction();
+                            println!("D {}>{} {}", x, y, dir_name(y.character_direction()));
+                        }
                     }
                 }
             }
